@@ -12,3 +12,4 @@ mutant('c10-sleep-poll-outside-loop','C10','TestingInterpreterScopeAdditions',"h
 				for i := 0; i < int(durationSecs*1000); i += 10 {
 					time.Sleep(time.Millisecond * 10)
 				}''')
+mutant('c04-interp-string-not-normalised','C04','NewValueString',"homescript/interpreter/value/valueString.go",'	normalized := norm.NFC.String(inner)\n	val := Value(ValueString{Inner: normalized, currIterIdx: &zero})','	normalized := norm.NFC.String(inner)\n	val := Value(ValueString{Inner: inner, currIterIdx: &zero})\n	_ = normalized')
